@@ -8,6 +8,7 @@ open ArgMapper.Driver
 /-- model configuration flags passed on the command line (`key=value`) -/
 structure Cfg where
   fixedReverse : Bool := true
+  vsetValidates : Bool := true
   fl : Flags := {}
 
 def dispatch (cfg : Cfg) (b : Block) : String :=
@@ -27,7 +28,7 @@ def dispatch (cfg : Cfg) (b : Block) : String :=
   | "alias" => (runAlias b).line b.kind b.id "C08"
   | "redef" => (runRedef cfg.fl b).line b.kind b.id ""
   | "sig" => (runSig b).line b.kind b.id "C14"
-  | "vset" => (runVset b).line b.kind b.id "C15"
+  | "vset" => (runVset b cfg.vsetValidates).line b.kind b.id "C15"
   | "opts" => (runOpts b).line b.kind b.id "C16"
   | "result" => (runResult b).line b.kind b.id "C17"
   | k => s!"res {k} {b.id} conform=DIVERGE:unknown_kind prop=na"
@@ -38,7 +39,7 @@ def mkCfg (args : List String) : Cfg :=
   let v : ArgMapper.Variant := ⟨!(off "r5SkipSame"), !(off "r6NameTest"), !(off "r8SkipSupplied")⟩
   let fl : Flags := ⟨v, !(off "memoCopy"), !(off "publishAfterUpdate"), !(off "trackReaching"),
     !(off "takeValuedNamed"), on "skipRecordsInput", !(off "dupIsError")⟩
-  ⟨!(off "fixedReverse"), fl⟩
+  ⟨!(off "fixedReverse"), !(off "vsetValidates"), fl⟩
 
 partial def readAll (h : IO.FS.Stream) (acc : Array String) : IO (Array String) := do
   let line ← h.getLine
